@@ -1,7 +1,7 @@
 #!/usr/bin/env python3
 """Mechanical mutation sweep (development aid, not a registered check).
 
-usage: mutate.py <out.jsonl> <per-file-limit> [file-substring ...]
+usage: mutate.py <out.jsonl> <per-file-limit> [--shard i/n] [file-substring ...]
 
 For every selected source file of petgraph (through /verif/petgraph-src, so that a `vp run --with-repo` snapshot can be
 used) it derives single-line mutants with a fixed operator set, applies each to the working tree, runs the quick tier
@@ -120,39 +120,48 @@ def run_check(cid):
 def main():
     outp, limit = sys.argv[1], int(sys.argv[2])
     subs = sys.argv[3:]
+    shard = (0, 1)
+    if subs and subs[0] == "--shard":
+        shard = tuple(int(x) for x in subs[1].split("/"))
+        subs = subs[2:]
     if subprocess.run(["git", "diff", "--quiet"], cwd=REPO).returncode != 0:
         sys.exit("refusing: %s is dirty" % REPO)
+    todo = []
+    for rel, owners in OWNERS:
+        if subs and not any(x in rel for x in subs):
+            continue
+        path = os.path.join(REPO, rel)
+        lines, cands = candidates(path)
+        if len(cands) > limit:
+            step = len(cands) / float(limit)
+            cands = [cands[int(k * step)] for k in range(limit)]
+        for c in cands:
+            todo.append((rel, owners, path, lines, c))
+    todo = [t for k, t in enumerate(todo) if k % shard[1] == shard[0]]
+    print("mutants to run:", len(todo), flush=True)
     with open(outp, "a") as log:
-        for rel, owners in OWNERS:
-            if subs and not any(x in rel for x in subs):
-                continue
-            path = os.path.join(REPO, rel)
-            lines, cands = candidates(path)
-            if len(cands) > limit:
-                step = len(cands) / float(limit)
-                cands = [cands[int(k * step)] for k in range(limit)]
-            for (i, op, new) in cands:
-                mutated = list(lines)
-                mutated[i] = new
-                rec = {"file": rel, "line": i + 1, "op": op, "orig": lines[i].strip()[:160], "new": new.strip()[:160], "checks": {}}
-                try:
-                    open(path, "w").write("\n".join(mutated))
-                    verdict = "survived"
-                    for cid in owners:
-                        rc, first, secs = run_check(cid)
-                        rec["checks"][cid] = {"exit": rc, "first": first, "secs": secs}
-                        if rc == 1:
-                            verdict = "detected"
-                            break
-                        if rc not in (0, 1):
-                            verdict = "does-not-build-or-machinery" if rc == 2 else "timeout"
-                            break
-                    rec["verdict"] = verdict
-                finally:
-                    subprocess.run(["git", "checkout", "--", rel], cwd=REPO)
-                log.write(json.dumps(rec) + "\n")
-                log.flush()
-                print(rec["verdict"], rel, i + 1, op, flush=True)
+        for (rel, owners, path, lines, (i, op, new)) in todo:
+            mutated = list(lines)
+            mutated[i] = new
+            rec = {"file": rel, "line": i + 1, "op": op, "orig": lines[i].strip()[:160], "new": new.strip()[:160], "checks": {}}
+            try:
+                open(path, "w").write("\n".join(mutated))
+                verdict = "survived"
+                for cid in owners:
+                    rc, first, secs = run_check(cid)
+                    rec["checks"][cid] = {"exit": rc, "first": first, "secs": secs}
+                    if rc == 1:
+                        verdict = "detected"
+                        break
+                    if rc not in (0, 1):
+                        verdict = "does-not-build-or-machinery" if rc == 2 else "timeout"
+                        break
+                rec["verdict"] = verdict
+            finally:
+                subprocess.run(["git", "checkout", "--", rel], cwd=REPO)
+            log.write(json.dumps(rec) + "\n")
+            log.flush()
+            print("MUT", json.dumps(rec), flush=True)
 
 
 if __name__ == "__main__":
